@@ -172,7 +172,7 @@ fn vp_native_settings_flow() {
 }
 
 // ---------------------------------------------------------------- loopback servers for redirect / proxy / tunnel behaviour
-#[derive(Debug, Clone)] struct Seen { port: u16, first_line: String, host: Option<String>, body: Vec<u8>, raw_after_head: Vec<u8> }
+#[derive(Debug, Clone)] struct Seen { port: u16, first_line: String, host: Option<String>, body: Vec<u8>, raw_after_head: Vec<u8>, head: String }
 /// starts a server answering every connection with `reply(request_line) -> full response bytes`; records what it saw
 fn serve(log: Arc<Mutex<Vec<Seen>>>, reply: impl Fn(&str, u16) -> Vec<u8> + Send + Sync + 'static) -> u16 {
     let l = TcpListener::bind("127.0.0.1:0").unwrap();
@@ -186,8 +186,9 @@ fn serve(log: Arc<Mutex<Vec<Seen>>>, reply: impl Fn(&str, u16) -> Vec<u8> + Send
                 s.set_read_timeout(Some(std::time::Duration::from_millis(1500))).ok();
                 let mut r = BufReader::new(s.try_clone().unwrap());
                 let mut first = String::new(); if r.read_line(&mut first).unwrap_or(0) == 0 { return; }
-                let (mut host, mut cl, mut chunked) = (None, 0usize, false);
+                let (mut host, mut cl, mut chunked) = (None, 0usize, false); let mut head = String::new();
                 loop { let mut h = String::new(); if r.read_line(&mut h).unwrap_or(0) == 0 || h == "\r\n" { break; }
+                    head.push_str(&h);
                     let lower = h.to_ascii_lowercase();
                     if let Some(v) = lower.strip_prefix("host:") { host = Some(v.trim().to_string()); }
                     if let Some(v) = lower.strip_prefix("content-length:") { cl = v.trim().parse().unwrap_or(0); }
@@ -202,7 +203,7 @@ fn serve(log: Arc<Mutex<Vec<Seen>>>, reply: impl Fn(&str, u16) -> Vec<u8> + Send
                 let mut after = Vec::new(); let mut b = [0u8; 512];
                 s.set_read_timeout(Some(std::time::Duration::from_millis(300))).ok();
                 if let Ok(n) = r.read(&mut b) { after.extend_from_slice(&b[..n]); }
-                log.lock().unwrap().push(Seen { port, first_line: line, host, body, raw_after_head: after });
+                log.lock().unwrap().push(Seen { port, first_line: line, host, body, raw_after_head: after, head });
             });
         }
     });
@@ -366,28 +367,59 @@ fn vp_native_redirect_across_no_proxy_boundary() {
     println!("VP-NATIVE redirect_across_no_proxy_boundary cases=2");
 }
 
-/// C12: CONNECT handshake: request text, and for every refusal status nothing further is written to the proxy
+/// C12: CONNECT handshake: request text (authority with effective port, proxy credentials only), and for every refusal status and
+/// reply shape nothing further is written to the proxy and at most 10 KiB of its body are kept
 #[test]
 fn vp_native_connect_refusals() {
     let mut cases = 0u64;
-    for status in [100u16, 199, 300, 302, 304, 400, 403, 407, 500, 503, 599] {
+    // reply shapes: (with Content-Length?, body length)
+    let shapes: [(bool, usize); 6] = [(true, 0), (true, 10240), (true, 10241), (true, 20000), (false, 50), (false, 300_000)];
+    let origins = [("https://origin.test:8443/secret", "origin.test:8443"), ("https://ou:op@origin.test/secret?k=v#f", "origin.test:443"),
+                   ("https://[::1]:444/x", "[::1]:444"), ("https://10.1.2.3/x", "10.1.2.3:443")];
+    for (si, status) in [100u16, 199, 300, 302, 304, 400, 403, 407, 500, 503, 599].into_iter().enumerate() {
+        let (with_cl, blen) = shapes[si % shapes.len()];
+        let (origin, authority) = origins[si % origins.len()];
+        for creds in [true, false] {
+            let log = Arc::new(Mutex::new(Vec::new()));
+            let body = "x".repeat(blen);
+            let proxy = serve(log.clone(), move |_, _| {
+                if with_cl { resp(status, None, &body) } else { format!("HTTP/1.1 {} X\r\nConnection: close\r\n\r\n{}", status, body).into_bytes() } });
+            let mut s = crate::Session::new();
+            let purl = if creds { format!("http://pu:pw@127.0.0.1:{}", proxy) } else { format!("http://127.0.0.1:{}", proxy) };
+            s.proxy_settings(crate::ProxySettings::builder().https_proxy(Url::parse(&purl).unwrap()).build());
+            let e = s.post(origin).header("Authorization", "Bearer tok").header("X-Caller", "caller-header").text("topsecret").send();
+            cases += 1;
+            std::thread::sleep(std::time::Duration::from_millis(500));
+            let seen = log.lock().unwrap().clone();
+            let ctx = format!("status {} reply body {} bytes (Content-Length: {}) origin {} proxy credentials {}", status, blen, with_cl, origin, creds);
+            assert_eq!(seen.len(), 1, "{}", ctx);
+            assert_eq!(seen[0].first_line, format!("CONNECT {} HTTP/1.1", authority), "{}", ctx);
+            let head = seen[0].head.to_ascii_lowercase();
+            for leak in ["bearer tok", "caller-header", "topsecret", "ou:op", &b64(b"ou:op").to_ascii_lowercase()[..], "/secret"] { assert!(!head.contains(leak) && !seen[0].first_line.contains(leak), "{:?} written to the proxy in clear: {}", leak, ctx); }
+            if creds { assert!(head.contains(&format!("proxy-authorization: basic {}", b64(b"pu:pw")).to_ascii_lowercase()), "Proxy-Authorization from the proxy URL: {} head {:?}", ctx, seen[0].head); }
+            assert!(seen[0].raw_after_head.is_empty() && seen[0].body.is_empty(), "client wrote {} bytes to the proxy after a {} reply", seen[0].raw_after_head.len() + seen[0].body.len(), status);
+            match e.map_err(|e| e.into_kind()) {
+                Err(crate::ErrorKind::ConnectError { status_code, body }) => {
+                    assert_eq!(status_code.as_u16(), status, "{}", ctx);
+                    assert!(body.len() <= 10 * 1024, "refusal body of {} bytes kept: {}", body.len(), ctx);
+                    assert!(body.len() == blen.min(10 * 1024) && body.iter().all(|&b| b == b'x'), "kept {} bytes of a {}-byte body: {}", body.len(), blen, ctx);
+                }
+                other => panic!("CONNECT answered {} must give ConnectError, got {:?} ({})", status, other.map(|_| ()), ctx),
+            }
+        }
+    }
+    // reply heads that are truncated or garbage: an error, and nothing further is sent
+    for junk in [&b""[..], b"HTTP/1.1 200", b"HTTP/1.1 200 OK\r\nX: y", b"garbage\r\n\r\n", b"HTTP/1.1 abc OK\r\n\r\n", b"\r\n\r\n"] {
         let log = Arc::new(Mutex::new(Vec::new()));
-        let body = "x".repeat(20000);
-        let b2 = body.clone();
-        let proxy = serve(log.clone(), move |_, _| resp(status, None, &b2));
+        let j = junk.to_vec();
+        let proxy = serve(log.clone(), move |_, _| j.clone());
         let mut s = crate::Session::new();
-        s.proxy_settings(crate::ProxySettings::builder().https_proxy(Url::parse(&format!("http://pu:pw@127.0.0.1:{}", proxy)).unwrap()).build());
-        let e = s.post("https://origin.test:8443/secret").header("Authorization", "Bearer tok").text("topsecret").send();
-        cases += 1;
+        s.proxy_settings(crate::ProxySettings::builder().https_proxy(Url::parse(&format!("http://127.0.0.1:{}", proxy)).unwrap()).build());
+        let e = s.post("https://origin.test/secret").text("topsecret").send(); cases += 1;
+        assert!(e.is_err(), "CONNECT reply {:?} must be an error", String::from_utf8_lossy(junk));
         std::thread::sleep(std::time::Duration::from_millis(500));
         let seen = log.lock().unwrap().clone();
-        assert_eq!(seen.len(), 1);
-        assert_eq!(seen[0].first_line, "CONNECT origin.test:8443 HTTP/1.1");
-        assert!(seen[0].raw_after_head.is_empty(), "client wrote {} bytes to the proxy after a {} reply", seen[0].raw_after_head.len(), status);
-        match e.map_err(|e| e.into_kind()) {
-            Err(crate::ErrorKind::ConnectError { status_code, body }) => { assert_eq!(status_code.as_u16(), status); assert!(body.len() <= 10 * 1024, "refusal body of {} bytes kept", body.len()); }
-            other => panic!("CONNECT answered {} must give ConnectError, got {:?}", status, other.map(|_| ())),
-        }
+        assert!(seen.len() == 1 && seen[0].raw_after_head.is_empty(), "client wrote to the proxy after the reply {:?}", String::from_utf8_lossy(junk));
     }
     println!("VP-NATIVE connect_refusals cases={}", cases);
 }
